@@ -162,9 +162,15 @@ def run_spec(exe, unit, which, xs):
         lines.append('%s %s %s %s %s' % ('H' if which == 'y2h' else 'Y', hx(H.numerator), hx(H.denominator), hx(q.numerator), hx(q.denominator)))
     out = vf.run_parallel(exe, lines)
     res = []
-    for l in out:
+    for x, l in zip(xs, out):
         a, b = l.split()
-        res.append(Fraction(int(a, 16), int(b, 16)))
+        v = Fraction(int(a, 16), int(b, 16))
+        # sanity of the runner plumbing (hex conversion in the OCaml driver): the same formula in Python fractions
+        q = Fraction(x)
+        py = (H / 2 - q) % (2 * H) if which == 'y2h' else ((H / 2 - q + H) % (2 * H)) - H
+        if v != py:
+            raise RuntimeError('extracted SPEC runner and Python fractions disagree on %s %s %r: %s vs %s' % (which, unit, x, v, py))
+        res.append(v)
     return res
 
 
@@ -251,12 +257,46 @@ def judge(unit, which, x, rh, spec):
     return None
 
 
+F_THEOREMS = ['C19_fmod_exact', 'C19_heading_range_f', 'C19_yaw_range_f', 'C19_heading_range_rad_f', 'C19_yaw_range_rad_f',
+              'C19_heading_congruent_f', 'C19_yaw_congruent_f', 'C19_heading_congruent_rad_f', 'C19_yaw_congruent_rad_f',
+              'C19_heading_yaw_inverse_f', 'C19_model_vs_spec_heading', 'C19_model_vs_spec_yaw', 'C19_F2Q_is_value', 'C19_legacy_refuted']
+
+
+def axiom_names(ctx):
+    """complete list of the names Print Assumptions reports for the binary64 theorems (the framework keeps only the
+    first few hundred characters of each theorem's list)."""
+    f = os.path.join(ctx.tmp, 'c19_axioms.v')
+    open(f, 'w').write('From FEC Require Import Properties.C19.\n' + ''.join('Print Assumptions %s.\n' % t for t in F_THEOREMS))
+    rc, so, se = vf.sh('timeout 300 coqc -R %s FEC -w none %s' % (vf.THEORIES, f), cwd=ctx.tmp, timeout=330)
+    out = so                        # requiring the compiled Properties.C19 prints nothing itself
+    names = sorted(set(re.findall(r"^([A-Za-z_][\w.']*)\s*(?::|$)", out, re.M)) - {'Axioms', 'Closed'})
+    if rc != 0 or not names:
+        return 'axiom names of the binary64 theorems: could not be listed (%s)' % (se[-200:],)
+    prim = [n for n in names if '_spec' not in n and not n.startswith(('Classical', 'FunctionalExtensionality', 'Uint63.', 'FloatAxioms.'))
+            and n not in ('Prim2SF_SF2Prim', 'SF2Prim_Prim2SF', 'Prim2SF_valid', 'Prim2SF_inj', 'SF2Prim_inj')]
+    rest = [n for n in names if n not in prim]
+    return ('every name Print Assumptions reports for the binary64 theorems %s: primitive types/operations (kernel): %s; axioms: %s'
+            % (' '.join(F_THEOREMS), ' '.join(prim), ' '.join(rest)))
+
+
 def run(ctx):
     info = gen_c19.generate()
     ctx.notes.append('generated: %r' % info)
     if not ctx.coq():
         ctx.broken_proof()
     spec_exe = vf.build_extracted('c19', 'C19', 'c19_driver.ml')
+    if ctx.coq_ok:
+        ctx.trusted_base.append(axiom_names(ctx))
+    if ctx.thorough and ctx.coq_ok:
+        # independent re-check of the compiled closure by coqchk; its axiom list goes into the evidence
+        rc, so, se = vf.sh('timeout 1500 coqchk -o -silent -R theories FEC FEC.Properties.C19', cwd=vf.COQ, timeout=1600)
+        txt = so + se
+        ax = re.findall(r'^\s{4}(\S+)\s*$', txt.split('* Axioms:')[1].split('* Constants/Inductives')[0], re.M) if '* Axioms:' in txt else []
+        clean = all(('* %s: <none>' % k) in txt for k in ('Constants/Inductives relying on type-in-type', 'Constants/Inductives relying on unsafe (co)fixpoints', 'Inductives whose positivity is assumed'))
+        ctx.obligation('coqchk -o FEC.Properties.C19 (no type-in-type, unsafe fixpoints or assumed positivity)', rc == 0 and clean, 'coqchk', '%d axioms/primitives listed' % len(ax))
+        ctx.notes.append('coqchk axioms: ' + ' '.join(sorted(ax)))
+        if rc != 0 or not clean:
+            ctx.broken_proof('coqchk rejects the compiled closure of Properties/C19: ' + txt[-800:])
 
     corp = corpus_points()
     pts = {'deg': dedup(corp['deg'] + deg_points(ctx)), 'rad': dedup(corp['rad'] + rad_points(ctx))}
